@@ -376,3 +376,96 @@ pub fn ring_reader_script<R: std::io::Read>(
     }
     (out, snaps, None)
 }
+
+// ---- C17: snippet cropping / sanitising helpers ----
+
+pub fn snippet_sanitize(s: String) -> String {
+    crate::de_snipped::sanitize_terminal_snippet_preserve_len(s)
+}
+
+pub fn snippet_is_clean(s: &str) -> bool {
+    crate::de_snipped::is_terminal_snippet_clean(s)
+}
+
+pub fn snippet_crop_line(line: &str, left: usize, right: usize) -> (String, usize, usize) {
+    crate::de_snipped::verif::crop_line(line, left, right)
+}
+
+#[allow(clippy::too_many_arguments)]
+pub fn snippet_crop_window(
+    window_text: &str,
+    window_start_row: usize,
+    error_row: usize,
+    error_col: usize,
+    crop_radius: usize,
+    local_start: usize,
+    local_end: usize,
+) -> (String, usize, usize) {
+    crate::de_snipped::verif::crop_window(
+        window_text,
+        window_start_row,
+        error_row,
+        error_col,
+        crop_radius,
+        local_start,
+        local_end,
+    )
+}
+
+pub fn snippet_col_to_byte(line: &str, col: usize) -> Option<usize> {
+    crate::de_snipped::verif::col_to_byte(line, col)
+}
+
+pub fn snippet_line_col_to_byte(text: &str, row: usize, col: usize) -> Option<usize> {
+    crate::de_snipped::verif::line_col_to_byte(text, row, col)
+}
+
+pub fn snippet_line_starts(text: &str) -> Vec<usize> {
+    crate::de_snipped::verif::starts(text)
+}
+
+pub fn snippet_next_boundary(text: &str, start: usize) -> Option<usize> {
+    crate::de_snipped::verif::next_boundary(text, start)
+}
+
+/// `crop_source_window`; `start_line` = `None` is the identity line mapping.
+pub fn snippet_crop_source_window(
+    text: &str,
+    line: usize,
+    column: usize,
+    start_line: Option<usize>,
+    crop_radius: usize,
+) -> (String, usize) {
+    let mapping = match start_line {
+        None => crate::de_snipped::LineMapping::Identity,
+        Some(start_line) => crate::de_snipped::LineMapping::Offset { start_line },
+    };
+    crate::de_snipped::crop_source_window(
+        text,
+        &crate::Location::new(line, column),
+        mapping,
+        crop_radius,
+    )
+}
+
+/// The secondary ("defined here") window renderer.
+pub fn snippet_fmt_window(
+    text: &str,
+    line: usize,
+    column: usize,
+    start_line: Option<usize>,
+    msg: &str,
+    crop_radius: usize,
+) -> String {
+    crate::de_snipped::verif::fmt_window(
+        text,
+        &crate::Location::new(line, column),
+        start_line,
+        msg,
+        crop_radius,
+    )
+}
+
+pub fn ring_trim_utf8(bytes: Vec<u8>, start_offset: u64, start_line: usize) -> (u64, usize, Vec<u8>) {
+    crate::ring_reader::verif_trim(bytes, start_offset, start_line)
+}
